@@ -39,7 +39,16 @@ def main():
         if not a.skip_validate:
             rc, o = sh("go build ./... && go test -vet=off -count=1 ./... 2>&1 | tail -30", cwd=wt)
             res["suite_passes_with_patch"] = rc == 0 and "FAIL" not in o
-            if not res["suite_passes_with_patch"]: print(o[-3000:])
+            if not res["suite_passes_with_patch"]:
+                print(o[-3000:])
+                # process-spawning tests of the suite time out when the machine is saturated: re-run the
+                # failing packages alone, twice; a deterministic failure fails both times
+                pk = sorted(set(re.findall(r"^FAIL\s+(\S+)", o, re.M)))
+                if pk:
+                    again = [sh("go test -vet=off -count=1 %s 2>&1 | tail -30" % " ".join(pk), cwd=wt) for _ in range(2)]
+                    if all(r == 0 and "FAIL" not in oo for r, oo in again):
+                        res["suite_passes_with_patch"] = True
+                        res["suite_note"] = "first run failed in %s under load; two re-runs of those packages passed" % ",".join(pk)
             demos = [f for f in glob.glob(os.path.join(out, "*_test.go"))]
             res["demos"] = [os.path.basename(d) for d in demos]
             notes = open(os.path.join(out, "notes.md")).read() if os.path.exists(os.path.join(out, "notes.md")) else ""
